@@ -65,6 +65,114 @@ def codec_events(rnd, thorough):
     return rec
 
 
+class FakeUdp:
+    """Scripted UDP socket for CIPDriver.discover(): datagrams are handed out one per recv(), then the socket times out."""
+    script = []
+
+    def __init__(self, *a, **kw):
+        self.queue = list(FakeUdp.script)
+        self.budget = 1000
+
+    def settimeout(self, t):
+        pass
+
+    def setsockopt(self, *a):
+        pass
+
+    def bind(self, addr):
+        pass
+
+    def sendto(self, msg, addr):
+        return len(msg)
+
+    def close(self):
+        pass
+
+    def recv(self, n):
+        import socket as _s
+        self.budget -= 1
+        if self.budget < 0:
+            raise core.Machinery("discover() never stops receiving")
+        if not self.queue:
+            raise _s.timeout("no more replies")
+        return self.queue.pop(0)
+
+
+def rand_ident(rnd):
+    i = S.identity(fw=rnd.randint(0, 255), serial=rnd.getrandbits(32), vendor=rnd.choice([1, 0, 5, 65535, rnd.randint(0, 2000)]),
+                   ptype=rnd.choice([0, 12, 14, 43, 300, 65535]), pcode=rnd.randint(0, 65535), minor=rnd.randint(0, 255),
+                   status=(rnd.getrandbits(8), rnd.getrandbits(8)))
+    i["name"] = [rnd.choice([32, 65, 66, 49, 255]) for _ in range(rnd.choice([0, 1, 7, 32, 100]))]
+    i["ip"] = [rnd.getrandbits(8) for _ in range(4)]
+    i["state"] = rnd.getrandbits(8)
+    return i
+
+
+def discover_events(rec, rnd, n):
+    """CIPDriver.discover() over a scripted UDP socket: several devices answer, some replies are damaged."""
+    import socket as _s
+    from unittest import mock
+    import pycomm3
+    for k in range(n):
+        dgrams, script = [], []
+        for j in range(rnd.choice([1, 2, 3, 5])):
+            i = rand_ident(rnd)
+            item = Target({"identity": i}).identity_bytes(listid=True)
+            body = bytes([1, 0, 0x0C, 0, len(item) & 0xFF, len(item) >> 8]) + item
+            frame = bytes([0x63, 0, len(body) & 0xFF, len(body) >> 8]) + bytes(20) + body
+            kind = rnd.choice(["good", "good", "good", "trunc", "status"]) if k % 2 else "good"
+            d = {"ident": ident_record(i), "kind": kind, "n": 0}
+            if kind == "trunc":
+                d["n"] = rnd.choice([0, 5, 23, 24, 26, 30, len(frame) - 20, len(frame) - 1])
+                frame = frame[:d["n"]]
+            elif kind == "status":
+                d["n"] = rnd.choice([1, 2, 0x64, 0x65])
+                frame = frame[:8] + d["n"].to_bytes(4, "little") + frame[12:]
+            d["bytes"] = list(frame)
+            dgrams.append(d)
+            script.append(frame)
+        FakeUdp.script = script
+        with mock.patch("socket.socket", FakeUdp), mock.patch("socket.gethostname", lambda: "host"), \
+                mock.patch("socket.getaddrinfo", lambda *a, **kw: [(_s.AddressFamily.AF_INET, 0, 0, "", ("192.0.2.7", 0))]):
+            try:
+                out = {"kind": "val", "v": to_term(pycomm3.CIPDriver.discover())}
+            except core.Machinery:
+                raise
+            except Exception as ex:
+                out = {"kind": "exc", "cls": type(ex).__name__}
+        rec.events.append({"op": "discover", "dgrams": dgrams, "out": out})
+        rec.meta.append({"vendor": -1, "ptype": -1, "list": 2, "namelen": len(dgrams), "kinds": [d["kind"] for d in dgrams]})
+
+
+def position_events(rec, rnd, n):
+    """ModuleIdentityObject decoded away from offset 0: after other members of a structure, as array elements, from a
+    partly consumed stream."""
+    import io
+    from pycomm3.custom_types import ModuleIdentityObject
+    from pycomm3.cip import Struct, UINT, USINT, Array
+    for k in range(n):
+        ids = [rand_ident(rnd) for _ in range(rnd.choice([1, 2, 3]))]
+        raws = [Target({"identity": i}).identity_bytes(listid=False) for i in ids]
+        form = k % 3
+        try:
+            if form == 0:                                        # partly consumed stream
+                pre = bytes(rnd.getrandbits(8) for _ in range(rnd.randint(1, 9)))
+                st = io.BytesIO(pre + b"".join(raws))
+                st.read(len(pre))
+                vals = [ModuleIdentityObject.decode(st) for _ in ids]
+            elif form == 1:                                      # member of a larger structure
+                T = Struct(UINT("count"), USINT("x"), *[ModuleIdentityObject("m%d" % j) for j in range(len(ids))])
+                v = T.decode(b"\x01\x02\x03" + b"".join(raws))
+                vals = [v["m%d" % j] for j in range(len(ids))]
+            else:                                                # array elements
+                vals = list(Array(len(ids), ModuleIdentityObject).decode(b"".join(raws)))
+            out = {"kind": "val", "v": to_term(vals)}
+        except Exception as ex:
+            out = {"kind": "exc", "cls": type(ex).__name__}
+        rec.events.append({"op": "pos", "idents": [ident_record(i) for i in ids], "form": form, "out": out})
+        rec.meta.append({"vendor": -2, "ptype": -2, "list": 3, "namelen": form})
+
+
 def session_scenarios(rnd, n):
     from ..projgen import small_project
     scs = []
@@ -102,13 +210,17 @@ def run(ctx):
     core.assert_repo()
     rnd = random.Random(ctx.seed * 313 + 16)
     rec = codec_events(rnd, thorough)
+    discover_events(rec, rnd, 400 if thorough else 60)
+    position_events(rec, rnd, 300 if thorough else 45)
     fails = ce.judge(ctx, rec, "ident", module="TraceIdent", shard_events=3000)
     for idx, clause in fails:
         if clause.startswith("MACHINERY"):
             raise core.Machinery("%s on %s" % (clause, json.dumps(rec.events[idx])[:600]))
         m = rec.meta[idx]
-        ctx.violation(clause, {"list": m["list"], "known_vendor": rec.events[idx]["ident"]["vendor_text"]["has"],
-                               "known_ptype": rec.events[idx]["ident"]["ptype_text"]["has"], "namelen0": m["namelen"] == 0},
+        e0 = rec.events[idx]
+        key = {"list": m["list"], "known_vendor": e0["ident"]["vendor_text"]["has"], "known_ptype": e0["ident"]["ptype_text"]["has"],
+               "namelen0": m["namelen"] == 0} if "ident" in e0 else {"op": e0["op"], "shape": m.get("kinds", m["namelen"])}
+        ctx.violation(clause, key,
                       {"event": rec.events[idx]}, {"kind": "identity-event", "event": rec.events[idx]})
     scs = session_scenarios(rnd, 300 if thorough else 50)
     results = se.run_all(ctx, scs, "c16")
@@ -124,7 +236,8 @@ def run(ctx):
                 "get_module_info, get_plc_info; distinct = distinct (vendor, product type, kind, name length)")
     ctx.sample({"event": {k: v for k, v in rec.events[1].items() if k != "bytes"}})
     ctx.assumptions += ["vendor / product-type texts are data exported from the code; the specification owns the rule (table text or 'UNKNOWN')",
-                        "CIPDriver.discover binds real UDP sockets; only its reply parsing (ListIdentityObject) is covered"]
+                        "CIPDriver.discover runs over a scripted UDP socket (one interface, replies in a fixed order); the real "
+                        "broadcast and interface enumeration are outside"]
 
 
 def replay(path):
